@@ -24,6 +24,17 @@ int main()
 			if(!ok) bad++;
 		}
 	}
+	// ... also right after a run of higher dimension over a region whose extra axes are not of unit width
+	for(const char* m : methods)
+	{
+		std::function<double(std::vector<double>&, const double)> c1 = [](std::vector<double>&, const double) { return 1.0; };
+		std::vector<double> box6 = {0.0, 0.0, 0.0, 0.0, 0.0, 0.0, 0.1, 0.5, 10.0, 0.5, 10.0, 2.0}, reg2 = {0.0, 0.0, 1.0, 1.0}, reg1 = {2.0, 2.5};
+		Integrate_MC(c1, box6, 2000, m);
+		double v2 = Integrate_MC(c1, reg2, 1000, m), v1 = Integrate_MC(c1, reg1, 1000, m);
+		bool ok = std::isfinite(v2) && std::isfinite(v1) && std::fabs(v2 - 1.0) <= 1e-9 && std::fabs(v1 - 0.5) <= 1e-9;
+		printf("OBSERVED %s after a six-dimensional run: constant 1 over the unit square = %.12g, over [2,2.5] = %.12g%s\n", m, v2, v1, ok ? "" : "  ** VIOLATES the property **");
+		if(!ok) bad++;
+	}
 	// Miser on an off-centre narrow peak: the estimate is a finite number
 	std::vector<double> unit = {0.0, 0.0, 1.0, 1.0};
 	std::function<double(std::vector<double>&, const double)> narrow = [](std::vector<double>& x, const double) { return std::exp(-((x[0] - 0.2) * (x[0] - 0.2) + (x[1] - 0.3) * (x[1] - 0.3)) / (2 * 0.02 * 0.02)); };
